@@ -219,29 +219,41 @@ func (w *skWalker) stmt(s ast.Stmt) {
 		w.expr(x.Value)
 		w.emit("send", stripRecv(w.src(x.Chan)))
 	case *ast.SelectStmt:
-		var cases []string
+		// the clauses of a select have no order (the runtime picks among the ready ones at random): they
+		// are emitted sorted by what they communicate on, so that reordering them in the source is no change
+		type clause struct {
+			label string
+			cc    *ast.CommClause
+		}
+		var cls []clause
 		for _, c := range x.Body.List {
 			cc := c.(*ast.CommClause)
+			label := "other"
 			switch cm := cc.Comm.(type) {
 			case nil:
-				cases = append(cases, "default")
+				label = "default"
 			case *ast.SendStmt:
-				cases = append(cases, "send:"+stripRecv(w.src(cm.Chan)))
+				label = "send:" + stripRecv(w.src(cm.Chan))
 			case *ast.ExprStmt:
 				if u, ok := cm.X.(*ast.UnaryExpr); ok && u.Op == token.ARROW {
-					cases = append(cases, "recv:"+stripRecv(w.src(u.X)))
+					label = "recv:" + stripRecv(w.src(u.X))
 				}
 			case *ast.AssignStmt:
 				if u, ok := cm.Rhs[0].(*ast.UnaryExpr); ok && u.Op == token.ARROW {
-					cases = append(cases, "recv:"+stripRecv(w.src(u.X)))
+					label = "recv:" + stripRecv(w.src(u.X))
 				}
 			}
+			cls = append(cls, clause{label, cc})
+		}
+		sort.SliceStable(cls, func(i, j int) bool { return cls[i].label < cls[j].label })
+		var cases []string
+		for _, c := range cls {
+			cases = append(cases, c.label)
 		}
 		w.emit("select", strings.Join(cases, "|"))
-		for _, c := range x.Body.List {
-			cc := c.(*ast.CommClause)
+		for _, c := range cls {
 			w.emit("caseBegin", "")
-			w.stmts(cc.Body)
+			w.stmts(c.cc.Body)
 			w.emit("caseEnd", "")
 		}
 	case *ast.ReturnStmt:
